@@ -168,6 +168,21 @@ func (b bitStringEncoder) Encode(dst []byte) {
 	copy(dst[1:], b.Bytes)
 }
 
+// stringTag is the universal tag of a character string: the one named by the field
+// parameters (utf8 / ia5 / graphic) or, without such a parameter, the one of the Go type.
+func stringTag(fieldType reflect.Type, params fieldParameters) int {
+	if params.stringType != 0 {
+		return params.stringType
+	}
+	switch fieldType {
+	case IA5StringType:
+		return TagIA5String
+	case GraphicStringType:
+		return TagGraphicString
+	}
+	return TagUTF8String
+}
+
 // NOTE: for managementextension field
 // type oidEncoder ObjectIdentifier		// Commenting as unused
 
@@ -325,9 +340,11 @@ func makeField(v reflect.Value, params fieldParameters) (encoder, error) {
 		case reflect.String:
 			tag.class = ClassUniversal
 			tag.constructed = false
-			tag.tagNumber = uint64(params.stringType)
+			tag.tagNumber = uint64(stringTag(fieldType, params))
 
 			berType.value = stringEncoder(v.String())
+		default:
+			return nil, fmt.Errorf("ber: unsupported type %s", fieldType.String())
 		}
 	}
 	tag.len = int64(berType.value.Len())
